@@ -176,7 +176,7 @@ def lifted_big(ctx, s, r):
     rp = dict(kind="lifted", session={k: v for k, v in s.items()}, r=r)
     if ev["op"] == "Matrix":
         Y = strs["Y"]
-        bx, by = [(1100, 90), (70, 1300), (1030, 1030)][r % 3]
+        bx, by = [(lf.boundary_size(r), 90), (70, lf.boundary_size(r + 3)), (1025, 1025)][r % 3]
         ix, iy = lf.index_map(ctx.rng, len(X), bx), lf.index_map(ctx.rng, len(Y), by)
         want = lf.lift_matrix(ev["D"], ix, iy)
         desc = f"cdist of {bx} x {by} copies of {X} / {Y}, weights {w}"
@@ -194,7 +194,7 @@ def lifted_big(ctx, s, r):
                 bad = np.argwhere(got != want)[:1].tolist() if got.shape == want.shape else "shape"
                 ctx.violation(f"{name}/large-input/entry_wrong", f"{name}: {desc}: differs from the lifted accepted matrix at {bad}"[:400], rp)
     else:
-        big = (1100, 1300, 2050)[r % 3]
+        big = lf.boundary_size(r + 1)
         ix = lf.index_map(ctx.rng, len(X), big)
         want = lf.lift_condensed(lf.square_from_condensed(ev["vec"], len(X)), ix)
         desc = f"pdist of {big} copies of {X}, weights {w}"
